@@ -141,6 +141,12 @@ def check(tier):
         if not first:
             _fold(rep, r, f"group{gi}")
         first = False
+    from .. import deviate
+    from .c03 import deviation_bases
+
+    dsyms = alphabet("NONE STR MARK TUPLE ETUP EDICT REDUCE OBJ NEWOBJ BUILD POP DUP MEMOIZE BINGET0".split(),
+                     [G("os", "system"), G("builtins", "eval"), G("builtins", "getattr"), INST("vp_sink", "hit")])
+    deviate.run(PROP, deviation_bases(tier), dsyms, [(oracles, "c04_floor")], rep)
     items = list(template_programs(tier))
     total = e1.Out()
     with mp.get_context("fork").Pool(ncpu()) as pool:
